@@ -164,7 +164,13 @@ fn collect(bytes: &[u8], wsh: bool, ctx: &mut Ctx, fragmented: bool) -> Result<(
         crate::iosched::Script::whole()
     };
     let (src, _h) = SharedSource::new(bytes.to_vec(), script);
-    let mut reader = DltMessageReader::with_capacity(65551, 65551, src, wsh);
+    // mostly explicit capacities, 1 in 6 the default constructor (10 MiB read buffer)
+    let mut reader = if !ctx.light() && ctx.rng.chance(1, 6) {
+        ctx.obs("reader.new");
+        DltMessageReader::new(src, wsh)
+    } else {
+        DltMessageReader::with_capacity(65551, 65551, src, wsh)
+    };
     let mut w = Wrapper {
         inner: StatisticInfoCollector::default(),
         visits: vec![],
@@ -205,8 +211,14 @@ impl Monitor for M {
                 _ => ctx.rng.range(1, 40),
             }
         } as usize;
-        let pool_size = *ctx.rng.pick(&[1usize, 2, 3, 8]);
-        let pool: Vec<String> = ["A", "B", "", "DDDD", "é", "NONE", "x y", "ZZ"].iter().take(pool_size).map(|s| s.to_string()).collect();
+        let pool_size = *ctx.rng.pick(&[1usize, 2, 3, 8, 12]);
+        // ids that are easily confused: the literal "NONE" (the collector's name for "no ECU id"),
+        // ids differing only in trailing blanks, the storage-header pattern
+        let mut pool: Vec<String> = ["A", "B", "", "DDDD", "é", "NONE", "x y", "ZZ", "AB", "AB  ", "AB ", "DLT\u{1}"].iter().map(|s| s.to_string()).collect();
+        if pool_size == 12 || ctx.rng.chance(1, 3) {
+            ctx.rng.shuffle(&mut pool);
+        }
+        pool.truncate(pool_size);
         let large_pool = ctx.rng.chance(1, 4);
         let mut o = GenOpts::small();
         o.force_storage = Some(wsh);
@@ -224,8 +236,20 @@ impl Monitor for M {
         let mut bytes: Vec<u8> = vec![];
         let mut bounds: Vec<usize> = vec![0];
         let mut payloads: Vec<Vec<u8>> = vec![];
-        for _ in 0..n {
-            let mut m = gen_msg(&mut ctx.rng, &o);
+        // 1 stream in 60 carries a message with one of the 16 largest declarable lengths
+        let near_max_at = if !light && n > 0 && ctx.rng.chance(1, 60) { ctx.rng.usize_below(n) } else { usize::MAX };
+        for i in 0..n {
+            let mut m = if i == near_max_at {
+                ctx.obs("stream.with_near_max_message");
+                let mut oo = GenOpts::near_max(&mut ctx.rng);
+                oo.force_storage = Some(wsh);
+                if all_verbose {
+                    oo.force_kind = Some(crate::gen_msg::PKind::Verbose);
+                }
+                gen_msg(&mut ctx.rng, &oo)
+            } else {
+                gen_msg(&mut ctx.rng, &o)
+            };
             if !large_pool {
                 if let Some(x) = m.extended_header.as_mut() {
                     x.application_id = ctx.rng.pick(&pool).clone();
